@@ -35,6 +35,7 @@ type binder struct{ name, sort string }
 // generation order, so that every obligation can be checked against exactly the
 // prefix of definitions and assumptions that precede it in program order.
 type Script struct {
+	fresh     map[string]bool              // terms denoting references allocated by this execution (pairwise distinct)
 	defs      map[string]string            // defined name -> body (definitions without binders)
 	elemFacts map[string]map[string]string // declared array -> literal index -> element term
 	lines    []string
@@ -45,7 +46,7 @@ type Script struct {
 }
 
 func newScript() *Script {
-	s := &Script{declared: map[string]string{}, defs: map[string]string{}, elemFacts: map[string]map[string]string{}}
+	s := &Script{declared: map[string]string{}, fresh: map[string]bool{}, defs: map[string]string{}, elemFacts: map[string]map[string]string{}}
 	s.lines = append(s.lines,
 		"(declare-sort Str 0)",
 	)
@@ -162,8 +163,16 @@ func (s *Script) assume(t string) {
 		return
 	}
 	if len(s.binders) > 0 {
-		s.add(fmt.Sprintf("(assert (forall (%s) %s))", s.binderDecl(), t))
-		return
+		mentions := false
+		for _, b := range s.binders {
+			if strings.Contains(t, b.name) {
+				mentions = true
+			}
+		}
+		if mentions {
+			s.add(fmt.Sprintf("(assert (forall (%s) %s))", s.binderDecl(), t))
+			return
+		}
 	}
 	s.add("(assert " + t + ")")
 }
@@ -408,6 +417,11 @@ func (s *Script) selDepth(a, i string, depth int) string {
 				cur = toks[1]
 				continue
 			}
+			if s.fresh[i] && s.fresh[j] {
+				// two different allocation terms denote different objects
+				cur = toks[1]
+				continue
+			}
 			return sel(cur, i)
 		case toks[0] == "ite" && len(toks) == 4:
 			x := s.selDepth(toks[2], i, depth+1)
@@ -486,4 +500,27 @@ func (s *Script) addS(a, b string) string {
 		}
 	}
 	return app("bvadd", a, b)
+}
+
+// subS folds subtractions of literals.
+func (s *Script) subS(a, b string) string {
+	la, oka := s.lit(a)
+	lb, okb := s.lit(b)
+	if oka && okb {
+		va, n, _ := bvLitVal(la)
+		vb, _, _ := bvLitVal(lb)
+		return bvLit(va-vb, n)
+	}
+	if okb {
+		if v, _, _ := bvLitVal(lb); v == 0 {
+			return a
+		}
+	}
+	if a == b {
+		_, n, ok := bvLitVal(la)
+		if ok {
+			return bvLit(0, n)
+		}
+	}
+	return app("bvsub", a, b)
 }
